@@ -1,5 +1,6 @@
 use crate::diagnostic_emitter::MosResult;
 use crate::impl_request_handler;
+use crate::lsp::DocumentPath;
 use crate::lsp::{LspContext, RequestHandler};
 use itertools::Itertools;
 use lsp_types::request::SemanticTokensFullRequest;
@@ -116,7 +117,7 @@ impl RequestHandler<SemanticTokensFullRequest> for SemanticTokensFullRequestHand
         params: SemanticTokensParams,
     ) -> MosResult<Option<SemanticTokensResult>> {
         if let Some(tree) = &ctx.tree {
-            let path = params.text_document.uri.to_file_path().unwrap();
+            let path = params.text_document.uri.document_path();
             if let Some(file) = tree.try_get_file(&path) {
                 let semtoks = emit_semantic_ast(&file.tokens);
                 let data = to_deltas(&tree.code_map, semtoks);
